@@ -157,9 +157,15 @@ Theorem C02_invalid_fragment_is_error_not_panic : forall fmt wf c f,
 Proof. exact invalid_fragment_is_error_not_panic. Qed.
 
 (* ------------------------------------------------------------------ successful output parses *)
-(* TRUSTED CONTRACT of go/format.Source (external; DESIGN.md section 3): when it returns no
-   error its output is a syntactically valid Go source file (resp. declaration/statement
-   list).  [parses] is abstract.  Under it, whatever a formatted render writes parses. *)
+(* CONDITIONAL on a contract of go/format.Source that is NOT ours to prove and that the
+   installed toolchain does NOT honour for every input: "when it returns no error its output is
+   a syntactically valid Go source file (resp. declaration/statement list)".  The recorded
+   finding gofmt-hoists-plus-build-comment is a counterexample (a trailing `// +build ...`
+   comment is hoisted and the statement that followed it is joined to the previous one), so
+   for the real formatter [fmt_sound] is false and these two theorems only say where the
+   guarantee would come from: jennifer adds nothing between the formatter and the writer.
+   Parseability of what is actually written is decided by the harness oracle (go/parser on
+   every output), never by these theorems.  [parses] is abstract. *)
 Section Parses.
   Variable fmt : str -> option str.
   Variable wf : nat -> bool.
